@@ -701,7 +701,10 @@ def _build_factored_term(remainder: e.Expr, pref, itmd_cls,
     """Builds the factored term."""
     tensor = itmd_cls.tensor(indices=itmd_indices, return_sympy=True)
     # resolve the Zero placeholder for residuals
-    if tensor.name == "Zero":
+    # (the tensor comes with a factor of -1 if the indices are not in
+    #  canonical order)
+    if any(isinstance(obj, SymbolicTensor) and obj.name == "Zero"
+           for obj in Mul.make_args(tensor)):
         return e.Expr(0, **remainder.assumptions)
     return remainder * pref * tensor
 
